@@ -8,8 +8,9 @@ PROP = "C17"
 PROPS_V = "theories/Props/C17.v"
 THEOREMS = [
     "C17_parse_print_expr", "C17_parse_print_expr_refuted", "C17_precedence", "C17_keywords_ci",
-    "C17_parse_print_query", "C17_parse_print_command", "C17_fuel_enough", "C17_panic_refuted", "C17_fixed_never_panics", "C17_fixed_agrees",
-    "C17_no_panic_outside_known", "C17_panic_classes", "C17_dispatch_refuted", "C17_dispatch_outside_known",
+    "C17_parse_print_query", "C17_parse_print_command", "C17_fuel_enough", "C17_parse_total", "C17_numeric_limits",
+    "C17_store_string_braces",
+    "C17_dispatch_refuted", "C17_dispatch_outside_known",
 ]
 RULE = ("command texts from seven generators: (rt) print of a random well-formed Query AST by the extracted Coq printer "
         "with a random keyword casing, (grammar) grammar-derived QUERY/FIND/REPLAY/STORE/REMEMBER/user-management texts "
@@ -27,7 +28,7 @@ ASSUMPTIONS = [
 ]
 TRUSTED = [
     "Coq 8.16.1 kernel + coqc; vm_compute for closed witnesses; no native_compute",
-    "translator tools/params/p30_dispatch.py (variants of enum Command, arms of dispatch_command, catch-all macro) and p31_query_numeric.py (unwrap vs fallible action in limit_clause/offset_clause/number)",
+    "translator tools/params/p30_dispatch.py (variants of enum Command, arms of dispatch_command, catch-all macro) and p31_query_numeric.py (unwrap vs fallible action in limit_clause/offset_clause/number), p32_tokenizer_symbols.py (Token::Symbol characters), p33_store_braces.py (json_string alternative in balanced_braces)",
     "extraction: ExtrOcamlBasic only; ocaml/driver.ml, conv.ml, p_parse.ml (rendering, AST decoding)",
     "correspondence harness /verif/harness (vharn fn parse_cmd/parse_disp/parse_kind/parse_json) built against /repo with --cfg sneldb_verif",
     "python oracle: canonical rendering of the generated AST, CPython float()/json (independent of model and implementation)",
@@ -35,7 +36,7 @@ TRUSTED = [
 
 CLAIMED = True
 MANIFEST = {
- "level_text": "Theorems (all inputs / all ASTs, no bound) on a byte-level model of parse_command and of the QUERY/FIND peg grammar: print-then-parse is the identity for every well-formed WHERE expression and every well-formed Query command (all clause kinds), at the grammar entry point and through parse_command (trim, token validation, head switch), under every letter-casing of the keywords; NOT > AND > OR, parentheses and right-nesting follow; the supplied fuel never runs out; the only panics are the four unchecked numeric conversions (witnesses; a decidable input-level class outside which the grammar provably does not panic; with the proposed repair the parser never panics and accepts the same commands); Batch is the only Command variant without a dispatch arm. The dispatch table and the checked/unchecked form of the conversions are regenerated from the Rust text on every run. The model is run against the real parse_command on printed, grammar-derived, mutated, numeric-limit, nesting, whitespace and random inputs; panics, aborts (stack overflow) and timeouts of the implementation are caught in a child process and reported by a direct oracle, as is parse(print c) != c on the real parser.",
+ "level_text": "Theorems (all inputs / all ASTs, no bound) on a byte-level model of parse_command and of the QUERY/FIND peg grammar: parsing is total (never a panic, never out of fuel, for every input — the numeric conversions are fallible since 57cd0c4, which the translator reads from query.rs); print-then-parse is the identity for every well-formed WHERE expression and every well-formed Query command (all clause kinds), at the grammar entry point and through parse_command (trim, token validation, head switch), under every letter-casing of the keywords; NOT > AND > OR, parentheses and right-nesting follow; out-of-range numerals are parse errors and their in-range neighbours parse; STORE matches a block whose string literals contain braces; Batch is the only Command variant without a dispatch arm. The dispatch table, the tokenizer's symbol set, the form of the numeric conversions and of STORE's brace rule are regenerated from the Rust text on every run. The model is run against the real parse_command on printed, grammar-derived, mutated, numeric-limit, nesting, whitespace and random inputs; panics, aborts (stack overflow) and timeouts of the implementation are caught in a child process and reported by a direct oracle, as is parse(print c) != c on the real parser.",
  "design_ref": "DESIGN.md §6 C17",
  "level_note": "Trusted: Coq kernel; tools/params/p30_dispatch.py; ExtrOcamlBasic extraction + OCaml driver; the Rust harness; CPython (expected renderings, float and JSON comparison). The peg semantics are hand-modelled; DEFINE/BATCH/PLOT and non-ASCII outside string literals are covered for totality only."
 }
@@ -369,7 +370,7 @@ def t_query(rng):
 def t_json(rng, depth=2):
     r = rng.below(10)
     if depth <= 0 or r < 5:
-        return rng.choice(["1", "-5", "0", "true", "false", "null", "1.5", "2.5e3", '"x"', '"a b"', '"é"', '"q\\"r"', '"{"', '"}"',
+        return rng.choice(["1", "-5", "0", "true", "false", "null", "1.5", "2.5e3", "1e+16", "-2E+3", "1e-7", '"a\\"}"', '"{{"', '"\\\\"', '"x"', '"a b"', '"é"', '"q\\"r"', '"{"', '"}"',
                            str(rng.range(-10 ** 12, 10 ** 12)), '"' + g_string(rng, True, True).decode() + '"'])
     if r < 8:
         return "{" + ",".join('"%s":%s' % (g_ident(rng).decode(), t_json(rng, depth - 1)) for _ in range(rng.range(0, 3))) + "}"
@@ -548,6 +549,14 @@ def cases(rng, tier):
         addt("nest", "STORE e FOR c PAYLOAD " + "{" * n)
     for n in (3, 50, 500, 3000, 20000) + ((200000,) if big else ()):
         addt("nest", "STORE e FOR c PAYLOAD " + '{"a":' * n + "1" + "}" * n)
+    # STORE: braces / quotes / backslashes inside and outside string literals (fced25a), '+' (b3737c8)
+    for body in ['{"a":"}"}', '{"a":"{"}', '{"a":"}{"}', '{"a":"x\\"}"}', '{"a":"x\\\\"}', '{"a":"x\\\\"}"}', '{"a":"x}', '{"a":"x\\"}', '{"a":1e+16}',
+                 '{"a":+1}', '{"a":"}","b":{"c":"{"}}', '{"}":"{"}', '{"a":"\\u007d"}', '{"a":"é}"}', '{"a":"\\é}"}', '{"a":"x\\', '{"a":["}",{"b":"{"}]}',
+                 '{"a":"}"} x', '{"a":"}"}}', '{"a":\'}\'}', '{"a":"}" "}"}', '{""}"}', '{"a":"b"c"}"}']:
+        addt("nest", "STORE e FOR c PAYLOAD " + body)
+        addt("nest", "STORE e FOR \"c}\" PAYLOAD " + body)
+    for t in ["QUERY e WHERE x = +3", "QUERY e LIMIT +3", "PING +", "QUERY e WHERE a = 1 + 2", "QUERY e FOR \"a+b\"", "CREATE USER a+b", "SHOW + x"]:
+        addt("nest", t)
     for n in (100, 20000):
         addt("nest", "QUERY e WHERE a IN (" + ",".join(["1"] * n) + ")")
         addt("nest", "QUERY e WHERE " + " AND ".join(["a = 1"] * n))
@@ -786,15 +795,9 @@ def classify(c, impl):
     if line.startswith("parse_disp"):
         if impl == "PANIC" and up.startswith(b"BATCH"):
             return "BatchDispatchUnreachable"
-        if impl == "PANIC" and m.startswith("PANIC"):
-            return {"limit": "LimitOutOfU32", "offset": "OffsetOutOfU32", "int": "IntLiteralOutOfI64", "float": "FloatLiteralOverflow"}.get(m[6:])
         return None
     if line.startswith("parse_cmd"):
-        if impl == "PANIC" and m.startswith("PANIC "):
-            return {"limit": "LimitOutOfU32", "offset": "OffsetOutOfU32", "int": "IntLiteralOutOfI64", "float": "FloatLiteralOverflow"}.get(m[6:])
-        if impl == "PANIC" and up.startswith(b"BATCH") and re.search(rb"\d", b):
-            # BATCH re-parses its parts with parse_command: the same four conversions, reached through an unmodelled head
-            return "NumericPanicInsideBatch"
+        # (the numeric-conversion panics were repaired by 57cd0c4: a PANIC of parse_cmd has no known class any more)
         if impl == "TIMEOUT":
             if up.startswith((b"QUERY", b"FIND", b"REMEMBER", b"BATCH")) and _max_paren_depth(b) >= 11:
                 return "ParenNestingExponential"
